@@ -121,7 +121,7 @@ func VrfC02Worker() {
 		} else {
 			err = css.LogPin(rctx, pin)
 		}
-		if choose {
+		if choose && vrf_param("request_end_symbolic") == 1 {
 			if vrf_choice("request_over_once_answered", 2) == 1 {
 				rcancel()
 			}
